@@ -418,18 +418,35 @@ func c05Listener(c *Ctx, driver *Func, dialogueCall, walkCall *ast.CallExpr) {
 		if !ok || sel.Sel.Name != "AddErrorListener" {
 			return true
 		}
-		at, ok := info.Types[call.Args[0]]
-		if !ok {
+		// the argument, looked at through locals bound once (an interface-typed local holding the listener included)
+		argX := unparen(call.Args[0])
+		dx := w.expander(driver)
+		isListener := func(e ast.Expr) bool {
+			at, ok := info.Types[e]
+			if !ok {
+				return false
+			}
+			t := at.Type
+			if p, ok := t.(*types.Pointer); ok {
+				t = p.Elem()
+			}
+			return t == types.Type(listenerT)
+		}
+		for k := 0; k < 4 && !isListener(argX); k++ {
+			id := identOf(argX)
+			if id == nil {
+				break
+			}
+			rhs, idx, _, okd := dx.def(info.Uses[id])
+			if !okd || rhs == nil || idx >= 0 {
+				break
+			}
+			argX = unparen(rhs)
+		}
+		if !isListener(argX) {
 			return true
 		}
-		t := at.Type
-		if p, ok := t.(*types.Pointer); ok {
-			t = p.Elem()
-		}
-		if t != types.Type(listenerT) {
-			return true
-		}
-		if id := identOf(call.Args[0]); id != nil {
+		if id := identOf(argX); id != nil {
 			listenerVar = info.Uses[id]
 		}
 		if rt, ok := info.Types[sel.X]; ok {
@@ -785,6 +802,12 @@ func makeSizeGuarded(w *World, f *ssa.Function, mk *ssa.MakeSlice) (bool, string
 					if okV, _ := calledOnlyUnderIsVariadic(w, w.rootOf(fn)); okV {
 						continue
 					}
+				}
+			}
+			// the same through locals assigned once: n := T.NumIn(); k := n - 1
+			if strings.HasPrefix(sx, "($") && strings.HasSuffix(sx, ".NumIn()-1)") && strings.Count(sx, "(") == 2 {
+				if okV, _ := calledOnlyUnderIsVariadic(w, w.rootOf(fn)); okV {
+					continue
 				}
 			}
 			if !(strings.HasPrefix(sx, "len(") || strings.HasSuffix(sx, ".NumIn()") || strings.HasSuffix(sx, ".NumOut()") || strings.HasPrefix(sx, "cap(") || (strings.HasPrefix(sx, "(len(") && strings.Contains(sx, "+len("))) {
